@@ -3,7 +3,8 @@ from .common import Decision, run_units
 from .series_props import fold_canaries
 from .hermitian_common import specs_hermitian, LEAN_SETTING_NOTE
 
-LEAN = ["PV.pairing", "PV.unit_left", "PV.X_comm", "PV.main_similarity", "PV.C01_similarity", "PV.C01_eliminated"]
+LEAN = ["PV.pairing", "PV.unit_left", "PV.X_comm", "PV.main_similarity", "PV.C01_similarity", "PV.C01_eliminated",
+        "PV.TB.toMain", "PV.TB.C01_similarity", "PV.TB.C01_eliminated", "PV.TB.Dx_zero", "PV.TB.comm_WV"]
 
 
 def check(tier, seed):
@@ -12,8 +13,8 @@ def check(tier, seed):
     d.add_lean(LEAN)
     d.assumptions += [LEAN_SETTING_NOTE,
                       "input precondition: H is Hermitian (H[i,j,n]^dagger = H[j,i,n]) and masks are symmetric",
-                      "the two_block_optimized variant of the equations is not covered by the Lean theorems (general + commuting_blocks variants are); "
-                      "its equivalence under 'exactly two blocks, no mask' is checked only by the bounded battery when listed"]
+                      "all three variants of the equations (general, commuting_blocks, two_block_optimized) are covered by the Lean theorems; the two-block one "
+                      "through PV.TB.toMain under the class TwoBlocks (see the setting note)"]
     d.not_decided += ["rounding clause for floating-point inputs (A-FP)"]
     d.explanation = ("T-main is machine-checked in Lean 4 from the equations extracted from algorithms.main on this run: "
                      "(1+U'^dagger) H (1+U') = H_tilde in every filtered star ring with the block structure above, hence for all block counts and "
